@@ -101,7 +101,9 @@ def ladder_spec(c):
             if o["op"] == "heat_consumer" and o["id"] != "hc_off":
                 o["index"] = n_hc - 1 - pos
                 pos += 1
-    # the last rung of a mass-flow pump loop must be free to take the remaining flow
+    # a mass-flow pump prescribes the total flow: one uncontrolled exchanger rung at the end takes what the other rungs leave
+    if c["pump"] == "circ_pump_mass":
+        ops.append({"op": "heat_exchanger", "id": "hx_free", "from": "s%d" % k, "to": "r%d" % k, "qext_w": 15000.0, "d_mm": 60.0})
     return {"fluid": "water", "ops": ops}
 
 
